@@ -124,6 +124,11 @@ def Mesh.consistent (m : Mesh) : Bool :=
       ((m.sub m.dim d c).all fun b => (m.sub m.dim (d + 1) c).any fun e => (m.sub (d + 1) d e).contains b) &&
       ((m.sub m.dim (d + 1) c).all fun e => (m.sub (d + 1) d e).all fun b => (m.sub m.dim d c).contains b))
 
+/-- every entity of dimension `d+1 ≤ dim` has a (non-empty) facet list in `<d+1,d>` -/
+def Mesh.facetsOk (m : Mesh) : Bool :=
+  (List.range m.dim).all fun d =>
+    decide (m.numOf (d + 1) ≤ (m.idx (d + 1) d).length) && (m.idx (d + 1) d).all (fun row => !row.isEmpty)
+
 /-! ### Parti2Lvl -/
 
 /-- the `while(count < num_ranks) { count *= factor; ++power; }` loop; `none` = fuel exhausted (hang) -/
